@@ -77,6 +77,7 @@ def run(name, repo, timeout_s, max_accepts):
     base = [T >= 0, T <= (1 if stop_cfg else 5)]
     cut = [0]
     cut_paths = []
+    bad_paths = []
 
     def err(kind):
         return ms.Enum("Error", {"Error": ms.Struct({0: ms.Enum(KIND[kind], {kind: ms.Struct({})}), 1: ms.Opaque("src"), 2: ms.Opaque("ctx")})})
@@ -121,6 +122,11 @@ def run(name, repo, timeout_s, max_accepts):
 
     def m_accept(ex, path, a):
         wait = a[1]
+        acc = [e for e in events(path) if e[0] == "accept"]
+        if acc and acc[-1][2] == "error":
+            # the loop went on after an accept error other than a timeout: judged below, the run is not followed further
+            bad_paths.append((list(path.pc), "P:c15.accept_error_is_returned", "accept failed and the loop kept accepting"))
+            return ms.Fork([])
         n = sum(1 for e in events(path) if e[0] == "accept")
         if n >= max_accepts:
             cut[0] += 1
@@ -181,7 +187,7 @@ def run(name, repo, timeout_s, max_accepts):
                      3: ms.some(ms.Opaque("stop flag")) if stop_cfg else ms.none()}, "ListenConfig")
     ex = ms.Exec(blocks, models, solver, base, max_steps=3000000)
     finished = ex.run({params[0]: ms.Opaque("handler"), params[1]: ms.Opaque("address"), params[2]: ms.Ref("__cfg", ()), "__cfg": cfg})
-    if not finished:
+    if not finished and not bad_paths:
         raise Unsupported("no returning path")
     queries = ex.queries
     failed = None
@@ -252,6 +258,12 @@ def run(name, repo, timeout_s, max_accepts):
                 ask(pc, busys[-1] != 0, "P:c15.no_timeout_while_a_connection_is_served", "timeout returned while workers were busy")
             if stop_cfg:
                 ask(pc, T == 0, "P:c15.no_idle_timeout_when_it_is_zero", "idle_timeout 0 with a stop flag must never time out")
+        # "stops accepting shortly after the flag is set": with a stop flag no single wait is longer than a second
+        if stop_cfg:
+            for e in accepts:
+                w = e[1] if not isinstance(e[1], int) else z3.IntVal(e[1])
+                ask(pc, z3.Or(w > 1000, w <= 0), "P:c15.stop_flag_is_polled_at_least_every_second",
+                    "with a stop flag configured the loop blocks in accept for more than a second (or for ever)")
         # a stop flag seen set ends the loop at once
         for i, sflag in enumerate(stops[:-1]):
             ask(pc, sflag, "P:c15.stops_as_soon_as_the_flag_is_seen", "kept polling after the flag read true")
@@ -260,6 +272,8 @@ def run(name, repo, timeout_s, max_accepts):
         # an error of accept other than a timeout ends the loop with that error
         if accepts and accepts[-1][2] == "error" and (is_ok or kind == "Timeout"):
             ask(pc, TRUE, "P:c15.accept_error_is_returned", "accept failed and the result does not say so")
+    for pc, label, desc in bad_paths:
+        ask(pc, TRUE, label, desc)
     # liveness on the runs that were cut at the bound: an idle period may only be survived because workers were busy
     for pc, evs in cut_paths:
         idle = z3.IntVal(0)
@@ -286,7 +300,7 @@ def run(name, repo, timeout_s, max_accepts):
                             "P:c15.timeout_only_after_the_idle_time", "P:c15.no_timeout_while_a_connection_is_served",
                             "P:c15.stops_as_soon_as_the_flag_is_seen", "P:c15.accept_error_is_returned",
                             "P:c15.idle_server_does_time_out"] + (
-                                ["P:c15.no_idle_timeout_when_it_is_zero"] if stop_cfg else [])
+                                ["P:c15.no_idle_timeout_when_it_is_zero", "P:c15.stop_flag_is_polled_at_least_every_second"] if stop_cfg else [])
         res["covers"] = [{"desc": "a run that ends with the idle timeout", "status": "SATISFIED" if seen["timeout"] else "UNSATISFIABLE"},
                          {"desc": "a run that serves a connection", "status": "SATISFIED" if seen["served"] else "UNSATISFIABLE"}]
         if stop_cfg:
